@@ -16,7 +16,8 @@ RULE = ('programs = a generated header (0-4 leading comments of kinds `--`, `//`
         'lexer finds exactly those comment tokens in the output and none after code; the significant tokens equal '
         'the input\'s modulo renaming (so no comment became code and no code a comment); get_title()/get_byline() '
         'of the re-read output equal the input\'s whenever the input has them. Non-trivial = at least one header '
-        'comment and at least one later comment; distinct by source.')
+        'comment and at least one later comment; distinct by source.'
+        ' Header comments include one-line levelled long comments --[==[ ... ]==] with nothing after the closing bracket.')
 ASSUMPTIONS = ['lexical rules are represented by vlib/reflex.py', 'levelled long comments --[=[ are not generated (C07)']
 LEVEL_TEXT = ('Exploration: generated header shapes x generated programs; the header clause is checked on bytes, the '
               '"never turns into code" clause with the C01 token oracle.')
